@@ -7,6 +7,8 @@
     MAC is an arbitrary function [cmac]. *)
 From Sci Require Import StdPath.Model StdPath.ModelRouting StdPath.Spec StdPath.Proofs StdPath.ProofsRev
      StdPath.ProofsEnc StdPath.ProofsRouting.
+From Sci Require StdPath.Bridge.
+From Sci Require Import StdPath.ProofsWalk StdPath.ProofsWalkTop.
 Local Open Scope N_scope.
 
 (** Err => the path bytes are exactly as they were: EVERY byte string, every validator, entry
@@ -156,23 +158,11 @@ Proof.
 Qed.
 Print Assumptions processed_at_most_hop_count_times.
 
-(** A segment whose MACs are chained correctly in construction order ([cons_chain]: hop i
-    carries MAC_{key i}(beta_i, ts, ...), beta_{i+1} = beta_i xor MAC_i[0..2]) verifies hop
-    after hop, for every MAC function and every assignment of keys to ASes:
-    (1) travelled in construction direction, entered from inside or outside, starting with
-        SegID = beta of the first hop ahead;
-    (2) travelled against construction direction (the hop fields in reverse order on the wire),
-        starting with the chaining value of the last hop, XOR-stepped on arrival from outside;
-    every AS in the run forwards and CurrHF ends behind the run;
-    (3) the final hop of the path is delivered locally.
-    PARTIAL: the runs inside the segments (this theorem), the AS at a segment change
-    ([authentic_crossover_forwards]) and the final hop ([authentic_last_hop_delivers]) are
-    proved separately and are not composed into one statement about a whole multi-segment
-    walk; "also after try_reverse at any position" is [reversal_keeps_chaining_state] below (the
-    reversed path is in the state clause (1)/(2) starts from, with entry from inside), again
-    not composed with the runs; whole walks -- forward, reversed at the end or in the middle,
-    and back -- are exercised on the real code by the authentic cases of the correspondence. *)
-Theorem authentic_verifies_both_directions_partial :
+(** A run of ASes inside ONE segment (a piece of the composed theorem below): a segment whose
+    MACs are chained correctly in construction order ([cons_chain]) verifies hop after hop, in
+    construction direction (1) and against it (2), the first AS entered from inside or outside,
+    for every MAC function and every assignment of keys. *)
+Theorem authentic_segment_run :
   forall (cmac : list N -> list N -> list N) (keys hops : list (list N)) (fi : bool)
          ci ch rsv s0 s1 s2 IF HF,
     meta_ok ci ch rsv s0 s1 s2 -> shaped s0 s1 s2 IF HF -> ci < N.of_nat (length IF) ->
@@ -207,6 +197,32 @@ Proof.
     fold info0. rewrite Hcd, Hhops, Hbeta.
     apply wire_chain_against; assumption.
 Qed.
+Print Assumptions authentic_segment_run.
+
+(** THE COMPOSED STATEMENT.  A path of one to three segments [L] (2..63 hop fields each, at
+    most 64 in total), every segment chained in construction order from its own beta_0 with the
+    keys of its ASes and carrying the SegID of its first hop on the wire ([segs_chained], any
+    mix of construction directions), the two hop fields at every segment change belonging to
+    one AS ([keys_cross]; regular crossovers and shortcuts alike: a shortcut segment is a
+    chained sub-run from a later beta), positioned at its first hop:
+    - walking it AS by AS -- ingress then egress at every on-path AS, the first one entered from
+      inside, segment changes included -- every AS validates its hop field(s) and forwards, the
+      last AS delivers locally; CurrHF goes up by one per AS (two at the AS of a segment change,
+      which owns two hop fields) and ends at the last hop field;
+    - the arrived bytes, reversed with try_reverse, are again such a path and are walked back
+      the same way to local delivery at the origin.
+    For every MAC function and every key assignment; by induction over the ASes of each run
+    and over the segments ([ProofsWalk.walk_from]).
+    PARTIAL only in this: PEERING hop fields (info flag P, MAC chained over the peer interface)
+    are not covered -- routing.rs has no peering logic at all, such paths are not accepted by
+    HopMacValidator (a finding of the Network area, C01/C13), so "every authentic path" is proved
+    for non-peering paths. *)
+Theorem authentic_verifies_both_directions_partial :
+  forall (cmac : list N -> list N -> list N) (keyf : nat -> list N) (rsv s0 s1 s2 : N)
+         (IF HF : list (list N)) (L : list nat),
+    walk_hyps cmac keyf rsv s0 s1 s2 IF HF L ->
+    both_directions_statement cmac keyf rsv s0 s1 s2 IF HF L.
+Proof. exact walk_both_directions. Qed.
 Print Assumptions authentic_verifies_both_directions_partial.
 
 (** (3) the last hop of the path: an authentic hop field is validated and the packet is
@@ -271,6 +287,31 @@ Theorem reversal_keeps_chaining_state :
 Proof. exact reverse_keeps_chaining_state. Qed.
 Print Assumptions reversal_keeps_chaining_state.
 
+(** BRIDGE to the structural router model of the Network area (C13/C01): on every byte string
+    accepted by the view constructor whose decoding [Bridge.dec_path] is a well-formed structural
+    path, the byte-level advance functions -- run with pocketscion's
+    StandardValidator seen through the decoding ([Bridge.bridge_val_ingress/egress]) -- and the
+    structural [sdk_advance_ingress]/[sdk_advance_egress] of Network/Model.v agree: both Err,
+    or both Ok with the same alert flag, interface(s), action and validation verdict, and the
+    decoding of the bytes afterwards is the structural path afterwards ([Bridge.rel_ingress],
+    [Bridge.rel_egress]).  For every MAC function, topology, key, time and interface.
+    (Building this bridge exposed that the structural model lacked the CurrHF-fit guard of
+    routing.rs; it has since been added there and no bound on the hop count is needed.) *)
+Theorem byte_advance_refines_structural :
+  forall (key : Type) (mac : key -> N -> N -> N -> N -> N -> N) (t : Bridge.NM.topology key)
+         (ia : N) (K : key) (now cur_if eg_if : N) (b : list N),
+    view_ok b = true -> Bridge.NM.wf_path (Bridge.dec_path b) = true ->
+    Bridge.rel_ingress
+      (advance_ingress (Bridge.bridge_val_ingress mac t ia K now cur_if (curr_hf b)) (cur_if =? 0) b)
+      (Bridge.NM.sdk_advance_ingress mac t ia K now cur_if (Bridge.dec_path b))
+    /\ Bridge.rel_egress
+         (advance_egress (Bridge.bridge_val_egress mac K now eg_if) b)
+         (Bridge.NM.sdk_advance_egress mac K now eg_if (Bridge.dec_path b)).
+Proof.
+  intros. split; [apply Bridge.bridge_ingress|apply Bridge.bridge_egress]; assumption.
+Qed.
+Print Assumptions byte_advance_refines_structural.
+
 (** non-vacuity: with the Gallina AES-128-CMAC, a two-hop construction-direction segment chained
     as the theorem requires is forwarded by its first AS and delivered at its second *)
 From Sci Require Import Common.AesCmac StdPath.Examples.
@@ -281,3 +322,33 @@ Example ex_walk :
       /\ snd (process_at_as (hop_mac_validator aes_cmac ex_key2) false b1) = Delivered
       /\ snd (process_at_as (hop_mac_validator aes_cmac ex_key1) false b1) = Rejected).
 Proof. vm_compute. repeat split; reflexivity. Qed.
+
+(** non-vacuity of the composed theorem: a concrete two-segment path (first segment against,
+    second in construction direction, AES-128-CMAC) meets its hypotheses *)
+Example ex_walk2_hyps : walk_hyps aes_cmac ex_keyf 0 2 2 0 ex2_IF ex2_HF [2; 2]%nat.
+Proof.
+  unfold walk_hyps.
+  refine (conj eq_refl (conj _ (conj _ (conj _ (conj _ (conj _ (conj _ (conj _ _)))))))).
+  - cbn. lia.
+  - cbn. lia.
+  - reflexivity.
+  - constructor; [repeat constructor| repeat constructor | reflexivity | reflexivity].
+  - repeat constructor.
+  - repeat constructor.
+  - intros i Hi. destruct i as [|[|i]]; [| |cbn in Hi; lia].
+    + split; [cbn; lia|]. cbv zeta. unfold seg_chained.
+      refine (conj eq_refl (conj _ (ex_intro _ 200 (conj _ _)))); [vm_compute; discriminate| |vm_compute; reflexivity].
+      vm_compute. repeat split; reflexivity.
+    + split; [cbn; lia|]. cbv zeta. unfold seg_chained.
+      refine (conj eq_refl (conj _ (ex_intro _ 100 (conj _ _)))); [vm_compute; discriminate| |vm_compute; reflexivity].
+      vm_compute. repeat split; reflexivity.
+  - intros i Hi. destruct i as [|i]; [reflexivity|cbn in Hi; lia].
+Qed.
+Example ex_walk2 : both_directions_statement aes_cmac ex_keyf 0 2 2 0 ex2_IF ex2_HF [2; 2]%nat.
+Proof. exact (authentic_verifies_both_directions_partial _ _ _ _ _ _ _ _ _ ex_walk2_hyps). Qed.
+
+(** non-vacuity of the bridge: the decoding of that path is a well-formed structural path *)
+Example ex_bridge_wf :
+  view_ok (assemble 0 0 0 2 2 0 ex2_IF ex2_HF) = true
+  /\ Bridge.NM.wf_path (Bridge.dec_path (assemble 0 0 0 2 2 0 ex2_IF ex2_HF)) = true.
+Proof. vm_compute. split; reflexivity. Qed.
